@@ -1940,6 +1940,35 @@ def i_os_writefile2(ex, st, g, args, pos):
     return NILIFACE
 
 
+@harness('vStatDir')
+def h_stat_dir(ex, st, g, args, pos):
+    fs = fs_get(st)
+    dirs = dict(fs.d.get('dirs', {}))
+    dirs[cpath(args[0])] = args[1]
+    st.heap['FS'] = fs.with_(dirs=dirs)
+    return None
+
+
+@harness('vSetStdin')
+def h_set_stdin(ex, st, g, args, pos):
+    st.heap['STDIN'] = LibV('File', path='<stdin>', s=[args[0]], longline=None)
+    return None
+
+
+@harness('vCaptureStdout')
+def h_capture_stdout(ex, st, g, args, pos):
+    fn = args[0]
+    n0 = len(ex.ctx.effects)
+    r, heap2, g2 = ex.call_with_bindings(fn.fn, [], fn.bind, st.heap, g, pos)
+    st.heap = heap2
+    parts = []
+    for ge, kind, payload in ex.ctx.effects[n0:]:
+        if kind == 'stdout':
+            parts.append(lift_str(ex, st, [payload], lambda s_: s_ite(ge, s_, EMPTY)))
+    out = lift_str(ex, st, parts, lambda *ps: s_concat_all(list(ps))) if parts else EMPTY
+    return ret(out, g2)
+
+
 @harness('vStubGlob')
 def h_stub_glob(ex, st, g, args, pos):
     """filepath.Glob returns the first n files (sorted) of the given directory, whatever the pattern"""
